@@ -1,12 +1,132 @@
 /-
   Props/C07.lean — C07: shipped rewriters never narrow, never crash, and fire only on their trigger.
+
+  `h : Hier` is the class table (MRO and direct bases, computed by CPython); the theorems use only
+  reflexivity and transitivity of `issubclass` and "a direct base is a superclass" — decidable facts about
+  a concrete table, evaluated for the fixture table by the check (`hierOk`).
+  Totality ("rewriting completes without error") is by construction: `rewrite` is a total function; that the
+  implementation raises nothing is what the correspondence relation corr.C07.* establishes on generated types.
 -/
-import MTVerif.Model.Rewrite
-import MTVerif.Lemmas.ShrinkSound
+import MTVerif.Lemmas.RewriteSound
+import MTVerif.Lemmas.Trigger
+import MTVerif.Props.C05
 namespace MT.C07
 open MT
 
-/-- the no-op chain is the identity -/
+theorem ok_plain (r : RW) (ai ao : Bool) (hm : ai = true → ao = true) (hr : r ≠ .removeEmpty)
+    (hl : ∀ n, r ≠ .largeUnion n) : r.ok ai ao :=
+  ⟨hm, ⟨fun hr' => absurd hr' hr, fun n hn => absurd hn (hl n)⟩⟩
+
+theorem ok_loose (r : RW) (ai : Bool) (hr : r ≠ .removeEmpty) : r.ok ai true :=
+  ⟨fun _ => rfl, ⟨fun hr' => absurd hr' hr, fun _ _ => rfl⟩⟩
+
+theorem ok_removeEmpty : RW.ok .removeEmpty false false :=
+  ⟨fun x => x, ⟨fun _ => ⟨rfl, rfl⟩, fun n hn => by cases hn⟩⟩
+
+section
+variable (h : Hier)
+variable (htrans : ∀ a b c, h.sub a b = true → h.sub b c = true → h.sub a c = true)
+variable (hbase : ∀ c b, h.bases c = [b] → h.sub c b = true) (hrefl : ∀ c, h.sub c c = true)
+
+include htrans hbase hrefl
+
+/-- Every shipped rewriter, alone: each *tight* inhabitant of the input type (the reading under which an inferred
+    `C[Any]` stands for the empty `C`; every observed value is one — C05) is admitted by the output type. -/
+theorem never_narrows (r : RW) (t : Ty) (v : Val) (hw : t.wf = true)
+    (hc : conforms h.sub false t v = true) : conforms h.sub true (rewrite h r t) v = true := by
+  by_cases hr : r = .removeEmpty
+  · subst hr
+    have := rewrite_sound h htrans hbase hrefl .removeEmpty false false ok_removeEmpty t v hw hc
+    exact conforms_mono h.sub false true (fun _ => rfl) _ v this
+  · exact rewrite_sound h htrans hbase hrefl r false true (ok_loose r false hr) t v hw hc
+
+/-- Every rewriter except RemoveEmptyContainers is also non-narrowing at the type level under the usual reading
+    of Any (RemoveEmptyContainers is not, by design: it drops `List[Any]` next to `List[int]`). -/
+theorem never_narrows_usual (r : RW) (hr : r ≠ .removeEmpty) (t : Ty) (v : Val) (hw : t.wf = true)
+    (hc : conforms h.sub true t v = true) : conforms h.sub true (rewrite h r t) v = true :=
+  rewrite_sound h htrans hbase hrefl r true true (ok_loose r true hr) t v hw hc
+
+/-- RemoveEmptyContainers preserves tight membership (so rewriters that are sound under the tight reading can follow it) -/
+theorem removeEmpty_tight (t : Ty) (v : Val) (hw : t.wf = true)
+    (hc : conforms h.sub false t v = true) : conforms h.sub false (rewrite h .removeEmpty t) v = true :=
+  rewrite_sound h htrans hbase hrefl .removeEmpty false false ok_removeEmpty t v hw hc
+
+/-- The default chain RemoveEmptyContainers → RewriteConfigDict → RewriteLargeUnion(5) → RewriteGenerator. -/
+theorem default_chain_never_narrows (t : Ty) (v : Val) (hw : t.wf = true)
+    (hc : conforms h.sub false t v = true) : conforms h.sub true (rewriteChain h defaultChain t) v = true := by
+  simp only [rewriteChain, defaultChain, List.foldl]
+  have h1 := removeEmpty_tight h htrans hbase hrefl t v hw hc
+  have w1 := rewrite_wf h .removeEmpty t hw
+  have h2 := rewrite_sound h htrans hbase hrefl .configDict false false
+    (ok_plain .configDict false false (fun x => x) (by intro hr; cases hr) (by intro n hn; cases hn)) _ v w1 h1
+  have w2 := rewrite_wf h .configDict _ w1
+  have h3 := rewrite_sound h htrans hbase hrefl (.largeUnion 5) false true
+    (ok_loose (.largeUnion 5) false (by intro hr; cases hr)) _ v w2 h2
+  have w3 := rewrite_wf h (.largeUnion 5) _ w2
+  exact rewrite_sound h htrans hbase hrefl .generator true true
+    (ok_loose .generator true (by intro hr; cases hr)) _ v w3 h3
+
+/-- Any chain of rewriters none of which is RemoveEmptyContainers never narrows (usual reading). -/
+theorem chain_never_narrows_usual (rs : List RW) (hrs : ∀ r ∈ rs, r ≠ .removeEmpty) (t : Ty) (v : Val)
+    (hw : t.wf = true) (hc : conforms h.sub true t v = true) :
+    conforms h.sub true (rewriteChain h rs t) v = true ∧ (rewriteChain h rs t).wf = true := by
+  induction rs generalizing t with
+  | nil => exact ⟨hc, hw⟩
+  | cons r rs ih =>
+    simp only [rewriteChain, List.foldl]
+    exact ih (fun r' hr' => hrs r' (List.mem_cons_of_mem _ hr')) _ (rewrite_wf h r t hw)
+      (never_narrows_usual h htrans hbase hrefl r (hrs r (List.mem_cons_self ..)) t v hw hc)
+
+/-- End to end on what MonkeyType infers: every observed value is admitted by the default-rewritten inferred type,
+    for every collection of values and every TypedDict size limit. -/
+theorem default_chain_on_inferred (k : Nat) (vs : List Val) (hwv : wfL vs = true) :
+    ∀ v ∈ vs, conforms h.sub true (rewriteChain h defaultChain (infer k vs)) v = true := by
+  intro v hv
+  exact default_chain_never_narrows h htrans hbase hrefl _ v (shrink_wf k _ (getTypes_wf k vs hwv))
+    (MT.C05.any_only_for_empty_containers h.sub hrefl k vs hwv v hv)
+
+/-- … and so is the type rewritten by any single shipped rewriter. -/
+theorem rewriter_on_inferred (r : RW) (k : Nat) (vs : List Val) (hwv : wfL vs = true) :
+    ∀ v ∈ vs, conforms h.sub true (rewrite h r (infer k vs)) v = true := by
+  intro v hv
+  exact never_narrows h htrans hbase hrefl r _ v (shrink_wf k _ (getTypes_wf k vs hwv))
+    (MT.C05.any_only_for_empty_containers h.sub hrefl k vs hwv v hv)
+
+end
+
+/-- "Fires only on its trigger": a rewriter leaves a type unchanged unless its documented trigger occurs in it —
+    an empty container next to a non-empty one of the same kind (RemoveEmptyContainers), a union whose members are
+    all dicts with one key type (RewriteConfigDict), a union with more members than the maximum (RewriteLargeUnion n),
+    a union of plain classes (RewriteMostSpecificCommonBase), `Generator[_, None, None]` (RewriteGenerator).
+    `t.normal`: the union nodes of `t` are what `typing.Union[...]` builds (true of every typing object; checked
+    by the harness on every generated type). -/
+theorem unchanged_without_trigger (h : Hier) (r : RW) (t : Ty) (hn : t.normal = true) (ht : t.trig r = false) :
+    rewrite h r t = t := rewrite_unchanged h r t hn ht
+
+/-- … hence the default chain changes nothing when none of its four triggers is present -/
+theorem default_chain_unchanged_without_trigger (h : Hier) (t : Ty) (hn : t.normal = true)
+    (h1 : t.trig .removeEmpty = false) (h2 : t.trig .configDict = false) (h3 : t.trig (.largeUnion 5) = false)
+    (h4 : t.trig .generator = false) : rewriteChain h defaultChain t = t := by
+  simp only [rewriteChain, defaultChain, List.foldl]
+  rw [rewrite_unchanged h _ t hn h1, rewrite_unchanged h _ t hn h2, rewrite_unchanged h _ t hn h3,
+    rewrite_unchanged h _ t hn h4]
+
+/-- the no-op rewriter (empty chain) is the identity -/
 theorem noop_id (h : Hier) (t : Ty) : rewriteChain h [] t = t := rfl
+
+/-- well-formedness is preserved, so chains compose -/
+theorem rewrite_wf (h : Hier) (r : RW) (t : Ty) (hw : t.wf = true) : (rewrite h r t).wf = true :=
+  MT.rewrite_wf h r t hw
+
+/-! non-vacuity: a concrete class table satisfying the hypotheses, and a tight inhabitant -/
+def demoHier : Hier where
+  mro c := if c == 40 then [40, 41, objectC] else if c == 41 then [41, objectC] else [c, objectC]
+  bases c := if c == 40 then [41] else [objectC]
+example : conforms demoHier.sub false (.union [.list .any, .list (.cls 41)]) (.list [.inst 40]) = true := by decide
+example : Ty.beq' (rewrite demoHier .removeEmpty (.union [.list .any, .list (.cls 41)])) (.list (.cls 41)) = true := by decide
+
+example : (Ty.union [.list .any, .list (.cls 41)]).trig .removeEmpty = true := by decide
+example : (Ty.union [.list .any, .cls 41]).trig .removeEmpty = false := by decide
+example : (Ty.union [.list .any, .cls 41]).normal = true := by decide +kernel
 
 end MT.C07
